@@ -73,6 +73,11 @@ def gen_rounds(seed, tier, run):
             out.append(f"argmax@i32 {arr(sh, [e % 3 for e in es])} z{ax} z{rng.randint(0, 2)}")
             out.append(f"argmin@i32 {arr(sh, [e % 3 for e in es])} z{ax} z{rng.randint(0, 2)}")
         out.append(f"sort@str {arr(sh, es)} n z0")
+        # unique along an axis: lanes with equally many distinct values give an array, ragged lanes are refused
+        for ax in list(range(-n, n)) + [n, -n - 1]:
+            out.append(f"unique {arr(sh, [e % 2 for e in es])} z{ax}")
+            out.append(f"unique {arr(sh, list(range(prod(sh))))} z{ax}")
+            out.append(f"unique {arr(sh, [(i // 2) % 3 for i in range(prod(sh))])} z{ax}")
     for L in (40, 64, 100):
         sh = [3, L]
         es = [rng.randint(0, 50) for _ in range(3 * L)]
